@@ -271,7 +271,16 @@ def run(ctx):
     c.ob("R4", ok, pa, "delay-keys-normalised", "string and numeric delay keys go through one int() normalisation" if ok else
          "delay keys are no longer normalised with int(): '500' and 500 would be different timers", pa.node)
     pi = sn.methods["_parse_initial"]
-    ok = any(isinstance(x, ast.If) and "len(candidates) == 1" in norm(x.test) for x in own_nodes(pi.node))
+    # as a fact: some '<list>[0]' is produced under the guard 'len(<list>) == 1' (whatever the list and the count are called)
+    from sa.util import canon_atom as _ca18, expand_names as _en18
+    ok = False
+    for x in own_nodes(pi.node):
+        if isinstance(x, ast.Subscript) and isinstance(x.slice, ast.Constant) and x.slice.value == 0 and isinstance(x.ctx, ast.Load):
+            lst = norm(_en18(pi, x.value))
+            for a_, pol_ in guards_at(pi, x):
+                t_ = _ca18(_en18(pi, a_), pol_)
+                if t_[0] == "==" and {t_[1], t_[2]} in ({f"len({lst})", "1"}, {f"len({norm(x.value)})", "1"}) and t_[3] is True:
+                    ok = True
     c.ob("R4", ok, pi, "single-child-initial-inferred", "an omitted 'initial' with a single non-history child is inferred" if ok else
          "an omitted 'initial' with exactly one child is no longer inferred", pi.node)
     td = p.cls("TransitionDefinition").methods["__init__"]
